@@ -34,6 +34,8 @@ def ops(rnd):
         "readfrag": [S.read_call([R([("BIG", [])], count=3000)])],
         "writefrag": [S.write_call([R([("BIG", [])], count=3000, value=list(range(3000)))])],
         "bitwrite": [S.write_call([R([("BW", [])], bit=3, value=True), R([("BW", [])], bit=4, value=False), R([("D2", [])], value=5)])],
+        "bitwrite2": [S.write_call([R([("BW", [])], bit=3, value=True), R([("D1", [])], bit=9, value=True), R([("D2", [])], bit=0, value=False)]),
+                      S.write_call([R([("D1", [])], bit=1, value=False), R([("BW", [])], bit=30, value=True)])],
         "upload": [{"api": "get_tag_list"}],
     }, s
 
@@ -58,12 +60,13 @@ def measure(ctx, rnd):
             frames[-1][1] += 1
     sent = [n for api, n in frames if api in ("read",)]
     if len(peeks) != 4 or len(sent) != 2:
-        raise core.Machinery("sequence measurement failed: %r %r" % (peeks, frames))
+        # the measurement session itself went wrong (e.g. a transfer that never ends): it is judged with the other sessions
+        return None, sc
     d3 = (peeks[1] - peeks[0] - 1)          # counts drawn by a 3-member multi read sent as 1 packet
     member = (d3 - sent[0]) // 3
     dfrag = (peeks[3] - peeks[2] - 1)
     fragpre = dfrag - sent[1]
-    return {"MemberTakes": member, "FragPre": fragpre, "frames": sent, "drawn": [d3, dfrag]}
+    return {"MemberTakes": member, "FragPre": fragpre, "frames": sent, "drawn": [d3, dfrag]}, sc
 
 
 def se_val(e):
@@ -75,7 +78,12 @@ def run(ctx):
     thorough = ctx.tier == "thorough"
     rnd = random.Random(ctx.seed * 77 + 17)
     core.assert_repo()
-    ms = measure(ctx, rnd)
+    ms, msc = measure(ctx, rnd)
+    msc["id"] = "qmeasure"
+    msc["budget"] = 3000
+    if ms is None:
+        ctx.extra["measurement"] = "failed: the measurement session did not complete; design model run with the documented design"
+        ms = {"MemberTakes": 0, "FragPre": 1, "frames": [], "drawn": []}
     ctx.extra["measured_design"] = ms
     # R1 with the measured design
     import os
@@ -93,7 +101,7 @@ def run(ctx):
                 raise core.Machinery("SeqCount: " + r.out[-1500:])
             ctx.extra["design_counterexample_modulus_%d" % n] = "shortest history repeating a count exists (scaled); the real-scale replay below decides"
     # R3
-    scs = []
+    scs = [msc]
     o, script = ops(rnd)
     kinds = list(o)
     for d in range(0, 7):
@@ -150,8 +158,8 @@ def run(ctx):
     ctx.evaluations = nf
     for r in results:
         ctx.nontrivial.add(r["sc"]["id"])
-    ctx.rule = ("7 wrap phases x 7 operation kinds (generic, single read, multi read, fragmented read, fragmented write, bit "
-                "writes, tag-list upload) with the real counter advanced through its public generator, one multi-service read of "
+    ctx.rule = ("7 wrap phases x 8 operation kinds (generic, single read, multi read, fragmented read, fragmented write, bit "
+                "writes on one and on several tags per call, tag-list upload) with the real counter advanced through its public generator, one multi-service read of "
                 "65534 / 65535 members, thorough: 66000 single reads; evaluations = connected frames judged; distinct = scenarios")
     ctx.sample({"measured": ms})
     ctx.sample({"calls": [c["api"] for c in scs[0]["calls"]]})
